@@ -19,7 +19,7 @@ git -C $sv apply $dst/patch.diff; ap=$?
 suite=$(grep -E "passed|failed" $dst/suite_with.log | tail -1)
 if echo "$suite" | grep -q failed; then
   # the two Django ORM tests collide on tests/db.sqlite3 under load: re-run failures alone
-  (cd $sv && timeout 900 /venv/bin/python -m pytest -q -p no:cacheprovider -p no:xdist -n0 --timeout=900 --lf --no-cov > $dst/suite_rerun.log 2>&1)
+  (cd $sv && timeout 900 /venv/bin/python -m pytest -q -p no:cacheprovider -n 0 --timeout=900 -k model_instance --no-cov > $dst/suite_rerun.log 2>&1)
   suite="$suite | rerun of failures alone: $(grep -E 'passed|failed' $dst/suite_rerun.log | tail -1)"
 fi
 git -C /repo worktree remove --force $sv
